@@ -85,8 +85,21 @@ pub(crate) fn run_path_counting(m: &mut RawMachine, path: &[usize]) -> (usize, u
     (path.len(), edges, ram_words)
 }
 
+/// number of words on the path that drive the bus (BUSEN or BUSWR), read from the real control store
+pub(crate) fn bus_words(path: &[usize]) -> usize {
+    let mut n = 0;
+    let mut i = 0;
+    while i < path.len() {
+        if accesses_bus(word_at(path[i])) {
+            n += 1;
+        }
+        i += 1;
+    }
+    n
+}
+
 macro_rules! count_form {
-    ($name:ident, $start:expr, $base:expr, $mask:expr, $path:ident, $golden:expr) => {
+    ($name:ident, $start:expr, $base:expr, $mask:expr, $path:ident, $golden:expr, $bus:expr) => {
         #[cfg_attr(kani, kani::proof)]
         #[cfg_attr(kani, kani::unwind(12))]
         #[cfg_attr(kani, kani::stub(crate::machine::board::Board::set_digital_output1, crate::machine::board::verif_st_board::stub_set_digital_output1))]
@@ -104,6 +117,7 @@ macro_rules! count_form {
             vassume(m.state == State::Running);
             vcover!(true, "pre.reachable");
             vassert!(words == $golden, "C15.C.form.words-as-documented");
+            vassert!(bus_words(paths::$path) == $bus, "C15.C.form.bus-access-words-as-documented");
             vassert!(edges == words + first_wait + ram_words, "C15.C.form.edges-are-words-plus-ram-accesses");
             let w = cur_word(&m);
             vassert!(is_fetch1(w) || is_fetch2(w), "C15.C.form.ends-at-a-fetch");
@@ -111,58 +125,58 @@ macro_rules! count_form {
     };
 }
 
-// documented words per form (transcribed once from the microprogram listing; the last word is the
-// fetch of the next opcode)
-count_form!(c15_nop, FETCH_WORD, 0x02, 0x00, c01_nop, 2);
-count_form!(c15_clr, FETCH_WORD, 0x04, 0x03, c01_clr, 2);
-count_form!(c15_ei, FETCH_WORD, 0x08, 0x00, c01_ei, 3);
-count_form!(c15_di, FETCH_WORD, 0x0C, 0x00, c01_di, 3);
-count_form!(c15_push, FETCH_WORD, 0x10, 0x03, c01_push, 4);
-count_form!(c15_pop, FETCH_WORD, 0x14, 0x03, c01_pop, 4);
-count_form!(c15_pushf, FETCH_WORD, 0x18, 0x00, c01_pushf, 4);
-count_form!(c15_popf, FETCH_WORD, 0x1C, 0x00, c01_popf, 3);
-count_form!(c15_call, FETCH_WORD, 0x28, 0x00, c01_call, 6);
-count_form!(c15_reti, FETCH_WORD, 0x2C, 0x00, c01_reti, 5);
-count_form!(c15_com, FETCH_WORD, 0x30, 0x03, c01_com, 2);
-count_form!(c15_neg, FETCH_WORD, 0x34, 0x03, c01_neg, 3);
-count_form!(c15_lsr, FETCH_WORD, 0x38, 0x03, c01_lsr, 2);
-count_form!(c15_asr, FETCH_WORD, 0x3C, 0x03, c01_asr, 2);
-count_form!(c15_rrc, FETCH_WORD, 0x40, 0x03, c01_rrc, 2);
-count_form!(c15_inc, FETCH_WORD, 0x44, 0x03, c01_inc, 2);
-count_form!(c15_tst, FETCH_WORD, 0x48, 0x03, c01_tst, 2);
-count_form!(c15_dec, FETCH_WORD, 0x50, 0x03, c01_dec, 2);
-count_form!(c15_add, FETCH_WORD, 0x64, 0x03, c01_add_s1, 2);
-count_form!(c15_adc, FETCH_WORD, 0x78, 0x03, c01_adc_s2, 2);
-count_form!(c15_sub, FETCH_WORD, 0x80, 0x03, c01_sub_s0, 4);
-count_form!(c15_and, FETCH_WORD, 0x9C, 0x03, c01_and_s3, 7);
-count_form!(c15_or, FETCH_WORD, 0xA4, 0x03, c01_or_s1, 5);
-count_form!(c15_xor, FETCH_WORD, 0xD8, 0x03, c01_xor_s2, 8);
-count_form!(c15_src_reg, FETCH_WORD, 0xF0, 0x03, c01_src_reg, 2);
-count_form!(c15_src_ind, FETCH_WORD, 0xF4, 0x03, c01_src_ind, 2);
-count_form!(c15_src_inc, FETCH_WORD, 0xF8, 0x03, c01_src_inc, 3);
-count_form!(c15_src_dinc, FETCH_WORD, 0xFC, 0x03, c01_src_dinc, 4);
-count_form!(c15_mov_reg, SECOND_FETCH_WORD, 0x10, 0x03, c01_mov_reg, 2);
-count_form!(c15_mov_ind, SECOND_FETCH_WORD, 0x14, 0x03, c01_mov_ind, 2);
-count_form!(c15_mov_inc, SECOND_FETCH_WORD, 0x18, 0x03, c01_mov_inc, 3);
-count_form!(c15_mov_dinc, SECOND_FETCH_WORD, 0x1C, 0x03, c01_mov_dinc, 4);
-count_form!(c15_cmp_reg, SECOND_FETCH_WORD, 0x20, 0x03, c01_cmp_reg, 4);
-count_form!(c15_cmp_ind, SECOND_FETCH_WORD, 0x24, 0x03, c01_cmp_ind, 4);
-count_form!(c15_cmp_inc, SECOND_FETCH_WORD, 0x28, 0x03, c01_cmp_inc, 5);
-count_form!(c15_cmp_dinc, SECOND_FETCH_WORD, 0x2C, 0x03, c01_cmp_dinc, 6);
-count_form!(c15_bitt_reg, SECOND_FETCH_WORD, 0x30, 0x03, c01_bitt_reg, 5);
-count_form!(c15_bitt_ind, SECOND_FETCH_WORD, 0x34, 0x03, c01_bitt_ind, 5);
-count_form!(c15_bitt_inc, SECOND_FETCH_WORD, 0x38, 0x03, c01_bitt_inc, 6);
-count_form!(c15_bitt_dinc, SECOND_FETCH_WORD, 0x3C, 0x03, c01_bitt_dinc, 7);
-count_form!(c15_ldsp, SECOND_FETCH_WORD, 0x40, 0x00, c01_ldsp, 2);
-count_form!(c15_ldfr, SECOND_FETCH_WORD, 0x44, 0x00, c01_ldfr, 2);
-count_form!(c15_bits_reg, SECOND_FETCH_WORD, 0x50, 0x03, c01_bits_reg, 4);
-count_form!(c15_bits_ind, SECOND_FETCH_WORD, 0x54, 0x03, c01_bits_ind, 4);
-count_form!(c15_bits_inc, SECOND_FETCH_WORD, 0x58, 0x03, c01_bits_inc, 5);
-count_form!(c15_bits_dinc, SECOND_FETCH_WORD, 0x5C, 0x03, c01_bits_dinc, 6);
-count_form!(c15_bitc_reg, SECOND_FETCH_WORD, 0x60, 0x03, c01_bitc_reg, 5);
-count_form!(c15_bitc_ind, SECOND_FETCH_WORD, 0x64, 0x03, c01_bitc_ind, 5);
-count_form!(c15_bitc_inc, SECOND_FETCH_WORD, 0x68, 0x03, c01_bitc_inc, 6);
-count_form!(c15_bitc_dinc, SECOND_FETCH_WORD, 0x6C, 0x03, c01_bitc_dinc, 8);
+// documented words per form and, of these, the words that access the bus (transcribed once from the
+// microprogram listing; the last word is the fetch of the next opcode)
+count_form!(c15_nop, FETCH_WORD, 0x02, 0x00, c01_nop, 2, 1);
+count_form!(c15_clr, FETCH_WORD, 0x04, 0x03, c01_clr, 2, 1);
+count_form!(c15_ei, FETCH_WORD, 0x08, 0x00, c01_ei, 3, 1);
+count_form!(c15_di, FETCH_WORD, 0x0C, 0x00, c01_di, 3, 1);
+count_form!(c15_push, FETCH_WORD, 0x10, 0x03, c01_push, 4, 2);
+count_form!(c15_pop, FETCH_WORD, 0x14, 0x03, c01_pop, 4, 2);
+count_form!(c15_pushf, FETCH_WORD, 0x18, 0x00, c01_pushf, 4, 2);
+count_form!(c15_popf, FETCH_WORD, 0x1C, 0x00, c01_popf, 3, 2);
+count_form!(c15_call, FETCH_WORD, 0x28, 0x00, c01_call, 6, 3);
+count_form!(c15_reti, FETCH_WORD, 0x2C, 0x00, c01_reti, 5, 3);
+count_form!(c15_com, FETCH_WORD, 0x30, 0x03, c01_com, 2, 1);
+count_form!(c15_neg, FETCH_WORD, 0x34, 0x03, c01_neg, 3, 1);
+count_form!(c15_lsr, FETCH_WORD, 0x38, 0x03, c01_lsr, 2, 1);
+count_form!(c15_asr, FETCH_WORD, 0x3C, 0x03, c01_asr, 2, 1);
+count_form!(c15_rrc, FETCH_WORD, 0x40, 0x03, c01_rrc, 2, 1);
+count_form!(c15_inc, FETCH_WORD, 0x44, 0x03, c01_inc, 2, 1);
+count_form!(c15_tst, FETCH_WORD, 0x48, 0x03, c01_tst, 2, 1);
+count_form!(c15_dec, FETCH_WORD, 0x50, 0x03, c01_dec, 2, 1);
+count_form!(c15_add, FETCH_WORD, 0x64, 0x03, c01_add_s1, 2, 1);
+count_form!(c15_adc, FETCH_WORD, 0x78, 0x03, c01_adc_s2, 2, 1);
+count_form!(c15_sub, FETCH_WORD, 0x80, 0x03, c01_sub_s0, 4, 1);
+count_form!(c15_and, FETCH_WORD, 0x9C, 0x03, c01_and_s3, 7, 1);
+count_form!(c15_or, FETCH_WORD, 0xA4, 0x03, c01_or_s1, 5, 1);
+count_form!(c15_xor, FETCH_WORD, 0xD8, 0x03, c01_xor_s2, 8, 1);
+count_form!(c15_src_reg, FETCH_WORD, 0xF0, 0x03, c01_src_reg, 2, 1);
+count_form!(c15_src_ind, FETCH_WORD, 0xF4, 0x03, c01_src_ind, 2, 2);
+count_form!(c15_src_inc, FETCH_WORD, 0xF8, 0x03, c01_src_inc, 3, 2);
+count_form!(c15_src_dinc, FETCH_WORD, 0xFC, 0x03, c01_src_dinc, 4, 3);
+count_form!(c15_mov_reg, SECOND_FETCH_WORD, 0x10, 0x03, c01_mov_reg, 2, 1);
+count_form!(c15_mov_ind, SECOND_FETCH_WORD, 0x14, 0x03, c01_mov_ind, 2, 2);
+count_form!(c15_mov_inc, SECOND_FETCH_WORD, 0x18, 0x03, c01_mov_inc, 3, 2);
+count_form!(c15_mov_dinc, SECOND_FETCH_WORD, 0x1C, 0x03, c01_mov_dinc, 4, 3);
+count_form!(c15_cmp_reg, SECOND_FETCH_WORD, 0x20, 0x03, c01_cmp_reg, 4, 1);
+count_form!(c15_cmp_ind, SECOND_FETCH_WORD, 0x24, 0x03, c01_cmp_ind, 4, 2);
+count_form!(c15_cmp_inc, SECOND_FETCH_WORD, 0x28, 0x03, c01_cmp_inc, 5, 2);
+count_form!(c15_cmp_dinc, SECOND_FETCH_WORD, 0x2C, 0x03, c01_cmp_dinc, 6, 3);
+count_form!(c15_bitt_reg, SECOND_FETCH_WORD, 0x30, 0x03, c01_bitt_reg, 5, 1);
+count_form!(c15_bitt_ind, SECOND_FETCH_WORD, 0x34, 0x03, c01_bitt_ind, 5, 2);
+count_form!(c15_bitt_inc, SECOND_FETCH_WORD, 0x38, 0x03, c01_bitt_inc, 6, 2);
+count_form!(c15_bitt_dinc, SECOND_FETCH_WORD, 0x3C, 0x03, c01_bitt_dinc, 7, 3);
+count_form!(c15_ldsp, SECOND_FETCH_WORD, 0x40, 0x00, c01_ldsp, 2, 1);
+count_form!(c15_ldfr, SECOND_FETCH_WORD, 0x44, 0x00, c01_ldfr, 2, 1);
+count_form!(c15_bits_reg, SECOND_FETCH_WORD, 0x50, 0x03, c01_bits_reg, 4, 1);
+count_form!(c15_bits_ind, SECOND_FETCH_WORD, 0x54, 0x03, c01_bits_ind, 4, 3);
+count_form!(c15_bits_inc, SECOND_FETCH_WORD, 0x58, 0x03, c01_bits_inc, 5, 3);
+count_form!(c15_bits_dinc, SECOND_FETCH_WORD, 0x5C, 0x03, c01_bits_dinc, 6, 4);
+count_form!(c15_bitc_reg, SECOND_FETCH_WORD, 0x60, 0x03, c01_bitc_reg, 5, 1);
+count_form!(c15_bitc_ind, SECOND_FETCH_WORD, 0x64, 0x03, c01_bitc_ind, 5, 3);
+count_form!(c15_bitc_inc, SECOND_FETCH_WORD, 0x68, 0x03, c01_bitc_inc, 6, 3);
+count_form!(c15_bitc_dinc, SECOND_FETCH_WORD, 0x6C, 0x03, c01_bitc_dinc, 8, 5);
 
 /// Data-dependent forms: JR (3 words either way, but different paths), MUL (per pass 3 words for a
 /// 0 bit, 4 for a 1 bit), DIV (2 words per subtracting pass): the per-path word counts.
